@@ -18,7 +18,7 @@ import os
 import random
 import multiprocessing as mp
 from collections import Counter
-from harness import common, pysem, pygen
+from harness import common, pysem, pygen, pyconc
 common.import_repo()
 from numba_scfg.core.datastructures.ast_transforms import AST2SCFGTransformer  # noqa: E402
 
@@ -152,27 +152,38 @@ def _work(chunk):
             lean_differs = True
             rec["fails"].append("lean-bisim: " + rep[2][:300])
         # CPython ground truth: original vs CFG interpretation, and RefSem vs CPython
-        fn = pysem.make_fn(src)
-        cfn = pysem.make_cfg_fn(cfg, params)
-        lines, exp, cfgruns = [], [], []
-        for ds, segs, status in paths(fn, len(params) - 1, 7):
-            rec["paths"] += 1
-            csegs, cstatus = pysem.run_oracle(lambda o, *a: cfn(o, *a), len(params) - 1, ds)
-            if status == "diverges" or cstatus == "diverges":
-                if status != cstatus:
-                    rec["fails"].append(f"cpython: divergence differs on {ds}")
-                continue
-            cfgruns.append((ds, csegs, cstatus))
-            if pysem.canon_segments(segs) != pysem.canon_segments(csegs) or status != cstatus:
-                rec["fails"].append(f"cpython: trace differs on decisions {ds}: {status} vs {cstatus}")
-            lines.append("PYRUN A " + ("".join(map(str, ds)) or "-"))
-            exp.append((segs, status))
-        if lines:
-            outl = drv.run(["PYA " + " ".join(toks)] + lines)[1:]
-            for (segs, status), line in zip(exp, outl):
-                lsegs, lstatus = pysem.lean_trace_to_segments(line)
-                if pysem.canon_segments(segs) != pysem.canon_segments(lsegs) or status != lstatus:
-                    rec["refsem_mismatch"] += 1
+        cfgruns = []
+        if pyconc.is_concrete(src):
+            f0 = pyconc.source_fn4(src)
+            f1 = pyconc.cfg_fn4(cfg, params)
+            for x, y in pyconc.GRID:
+                rec["paths"] += 1
+                a, b = pyconc.run_concrete(f0, x, y), pyconc.run_concrete(f1, x, y)
+                if a != b:
+                    rec["fails"].append(f"cpython: f({x}, {y}) gives {a[0]} / {len(a[1])} calls, the CFG {b[0]} / {len(b[1])} calls")
+                    break
+        else:
+            fn = pysem.make_fn(src)
+            cfn = pysem.make_cfg_fn(cfg, params)
+            lines, exp = [], []
+            for ds, segs, status in paths(fn, len(params) - 1, 7):
+                rec["paths"] += 1
+                csegs, cstatus = pysem.run_oracle(lambda o, *a: cfn(o, *a), len(params) - 1, ds)
+                if status == "diverges" or cstatus == "diverges":
+                    if status != cstatus:
+                        rec["fails"].append(f"cpython: divergence differs on {ds}")
+                    continue
+                cfgruns.append((ds, csegs, cstatus))
+                if pysem.canon_segments(segs) != pysem.canon_segments(csegs) or status != cstatus:
+                    rec["fails"].append(f"cpython: trace differs on decisions {ds}: {status} vs {cstatus}")
+                lines.append("PYRUN A " + ("".join(map(str, ds)) or "-"))
+                exp.append((segs, status))
+            if lines:
+                outl = drv.run(["PYA " + " ".join(toks)] + lines)[1:]
+                for (segs, status), line in zip(exp, outl):
+                    lsegs, lstatus = pysem.lean_trace_to_segments(line)
+                    if pysem.canon_segments(segs) != pysem.canon_segments(lsegs) or status != lstatus:
+                        rec["refsem_mismatch"] += 1
         if rec["fails"]:
             # classify semantically: does the CFG equal the source under one of the known deviations?
             dev = "other"
@@ -205,6 +216,8 @@ def programs(tier, seed):
     progs = list(pygen.HAND)
     for _ in range(n):
         progs.append(pygen.gen_program(rng, rng.randint(3, 11), depth=rng.choice([2, 3, 3, 4])))
+    for _ in range(n // 2):
+        progs.append(pygen.gen_concrete(rng, rng.randint(3, 9), depth=rng.choice([2, 3])))
     return progs
 
 
@@ -248,7 +261,8 @@ def run(ctx):
     cov = {"programs": len(progs), "disagreements_checked": sum(len(v) for v in by.values()),
            "samples": [{"source": progs[len(pygen.HAND) + 1]}],
            "evaluations": npaths, "distinct_nontrivial": len(set(progs)),
-           "rule": "hand-written corner cases + grammar-generated functions (assign, expression statement, return, pass, if/elif/else, while/else, "
+           "rule": "hand-written corner cases + grammar-generated oracle functions + concrete integer functions (comparison chains, arithmetic, unary, subscript, attribute, "
+                   "augmented assignment, logging calls; run on a 15-point argument grid instead of oracle paths) (assign, expression statement, return, pass, if/elif/else, while/else, "
                    "for/else, break, continue; and/or chains in assignments, tests, call arguments); each: Lean bisimulation of reference semantics vs. "
                    "front-end CFG semantics (all decision sequences), CPython runs of both on every decision sequence up to depth 7, census",
            "cpython_paths": npaths, "refsem_vs_cpython_mismatches": refmm,
